@@ -10,6 +10,8 @@ mod oracle;
 mod oracle2;
 mod search;
 mod search2;
+mod search3;
+mod sim;
 mod proto;
 mod rt;
 mod run;
